@@ -57,9 +57,16 @@ def _as_expr(paths):
     return e
 
 
+# texts of further mappings whose values are never None (a rule that has checked every store into such a map names it
+# here for the duration of its own summaries)
+TABLE_TEXTS = set()
+
+
 def _is_table(e):
-    """A mapping whose values are never None: a dict comprehension, or a module-level table (ALL_CAPS name)."""
-    return isinstance(e, ast.DictComp) or (isinstance(e, ast.Name) and e.id.isupper() and len(e.id) > 2)
+    """A mapping whose values are never None: a dict comprehension, a module-level table (ALL_CAPS name), or a map a rule vouches for."""
+    if isinstance(e, ast.DictComp) or (isinstance(e, ast.Name) and e.id.isupper() and len(e.id) > 2):
+        return True
+    return bool(TABLE_TEXTS) and isinstance(e, (ast.Attribute, ast.Name)) and U(e) in TABLE_TEXTS
 
 
 class _Walrus(ast.NodeTransformer):
@@ -862,6 +869,19 @@ def env_before(stmts, stop, sc, fname="function"):
                 env[st.targets[0].id] = subst(st.value, env)
             elif isinstance(st, ast.AnnAssign) and isinstance(st.target, ast.Name) and st.value is not None:
                 env[st.target.id] = subst(st.value, env)
+            elif isinstance(st, ast.Assign) and len(st.targets) == 1 and isinstance(st.targets[0], (ast.Tuple, ast.List)) and all(isinstance(x, ast.Name) for x in st.targets[0].elts):
+                # a, b = x, y (all values taken before any name is bound); a, b = v binds v[0], v[1]
+                v = subst(st.value, env)
+                tn = [x.id for x in st.targets[0].elts]
+                if isinstance(v, (ast.Tuple, ast.List)) and len(v.elts) == len(tn) and not any(isinstance(x, ast.Starred) for x in v.elts):
+                    for nm, x in zip(tn, v.elts):
+                        env[nm] = x
+                else:
+                    for i, nm in enumerate(tn):
+                        env[nm] = ast.Subscript(value=copy.deepcopy(v), slice=ast.Constant(i), ctx=ast.Load())
+            elif isinstance(st, ast.AugAssign) and isinstance(st.target, ast.Name):
+                cur = env.get(st.target.id, ast.Name(id=st.target.id, ctx=ast.Load()))
+                env[st.target.id] = ast.BinOp(left=cur, op=st.op, right=subst(st.value, env))
             elif isinstance(st, (ast.For, ast.While, ast.With, ast.Try)):
                 for n in ast.walk(st):
                     if isinstance(n, ast.Name) and isinstance(n.ctx, ast.Store):
